@@ -201,10 +201,11 @@ def nested_accept(name, prop, schema, var, change, desc, tiers=("quick", "thorou
     h.requires = tuple(sorted(ctx.requires))
     h.sample = node.describe()
     h.add(*h.array_literal("msg", msg))
-    h.add("let r: Result<%s, _> = cbor_deserialize(&msg);" % schema.rust)
     if expect_status is None:
+        h.add("let r: Result<(%s, &[u8]), _> = ctap_types::serde::de::take_from_bytes(&msg);" % schema.rust)
         h.add("match r {")
-        h.add("    Ok(val) => {")
+        h.add("    Ok((val, rest)) => {")
+        h.add('        assert!(rest.is_empty(), "the decoder must consume exactly the value (nothing left unread, nothing swallowed)");')
         for l in schema.check(ctx, "val", m):
             h.add("        " + l)
         h.add('        kani::cover!(true, "value decoded");')
@@ -212,10 +213,12 @@ def nested_accept(name, prop, schema, var, change, desc, tiers=("quick", "thorou
         h.add('    _ => assert!(false, "this value must be accepted"),')
         h.add("};")
     elif expect_status == "any":
+        h.add("let r: Result<%s, _> = cbor_deserialize(&msg);" % schema.rust)
         h.add('let st = cbor_status(&r);')
         h.add('assert!(st == 0 || st == 0x12 || st == 0x14, "error or accepted, never a crash");')
         h.add('kani::cover!(true, "decoder returned");')
     else:
+        h.add("let r: Result<%s, _> = cbor_deserialize(&msg);" % schema.rust)
         h.add('assert!(cbor_status(&r) == 0x%02x, "status for this input must be 0x%02x");' % (expect_status, expect_status))
         h.add('kani::cover!(true, "decoder returned");')
     h.fsa = fsa_for(len(msg))
